@@ -147,7 +147,9 @@ def field_accesses(fn):
                 p = pm.get(p)
             if p is not None and fn.nodes[p]['k'] == 'CXXOperatorCallExpr' and fn.nodes[p].get('op') == '[]':
                 c = fn.nodes[p].get('callee', '')
-                if ('map<' in c) and not fn.nodes[p].get('cconst'):
+                ks_ = fn.kids(p)
+                # the field must be the container (first operand), not the key
+                if ('map<' in c) and not fn.nodes[p].get('cconst') and len(ks_) >= 2 and fn.strip(ks_[1]) == i:
                     w = True
         out.append((i, nd['m'], w))
     fn._fa = out
